@@ -229,29 +229,52 @@ impl Monitor for C03 {
         }
         // one at a time, parents first
         if let Some((_, _, true, Some(h0))) = &reference {
-            let order = topo(txs);
-            let pool = &self.pools[0].1;
-            let r = catch(|| {
-                pool.install(|| {
-                    let mut s = ob.pre_state.clone();
-                    let mut seen: HashSet<TxHash> = HashSet::new();
-                    for i in order.iter() {
-                        if !seen.insert(txs[*i].hash_nosigs()) {
-                            continue;
-                        }
-                        s.apply_tx(&txs[*i]).map_err(|e| format!("{:?}", e))?;
-                    }
-                    Ok::<Header, String>(s.seal(probe_action()).header())
-                })
-            });
-            match r {
-                Ok(Ok(h)) => {
-                    if h != *h0 {
-                        viol!("batch-differs-from-one-at-a-time", "a set of {} transactions applied as a batch and one at a time (parents first) seal to different headers", n);
-                    }
+            // "in any order in which each transaction follows those whose outputs it spends": the linearisation of
+            // the set as presented, reversed and rotated
+            let mut variants: Vec<Vec<Transaction>> = vec![txs.to_vec()];
+            let mut rev = txs.to_vec();
+            rev.reverse();
+            variants.push(rev);
+            if n >= 3 {
+                let mut rot = txs.to_vec();
+                rot.rotate_left(1);
+                variants.push(rot);
+            }
+            let mut tried: BTreeSet<Vec<TxHash>> = BTreeSet::new();
+            for v in variants.iter() {
+                let order = topo(v);
+                let seq: Vec<TxHash> = order.iter().map(|i| v[*i].hash_nosigs()).collect();
+                if !tried.insert(seq.clone()) {
+                    continue;
                 }
-                Ok(Err(e)) => viol!("batch-accepted-but-sequence-rejected", "a set of {} transactions is accepted as a batch but applying them one at a time, parents first, fails: {}", n, e),
-                Err(_) => st.exclude("panicked"),
+                let pool = &self.pools[0].1;
+                let r = catch(|| {
+                    pool.install(|| {
+                        let mut s = ob.pre_state.clone();
+                        let mut seen: HashSet<TxHash> = HashSet::new();
+                        for i in order.iter() {
+                            if !seen.insert(v[*i].hash_nosigs()) {
+                                continue;
+                            }
+                            s.apply_tx(&v[*i]).map_err(|e| format!("{:?}", e))?;
+                        }
+                        Ok::<Header, String>(s.seal(probe_action()).header())
+                    })
+                });
+                let kinds: Vec<String> = order.iter().map(|i| format!("{:?}", v[*i].kind)).collect();
+                match r {
+                    Ok(Ok(h)) => {
+                        if h != *h0 {
+                            viol!("batch-differs-from-one-at-a-time", "a set of {} transactions applied as a batch and one at a time (parents first, order {:?}) seal to different headers", n, kinds);
+                        }
+                    }
+                    Ok(Err(e)) => viol!("batch-accepted-but-sequence-rejected", "a set of {} transactions is accepted as a batch but applying them one at a time, parents first (order {:?}), fails: {}", n, kinds, e),
+                    Err(_) => st.exclude("panicked"),
+                }
+                st.class("one-at-a-time-order-tried");
+            }
+            if txs.iter().filter(|t| t.kind == melstructs::TxKind::DoscMint).count() >= 2 {
+                st.class("accepted-set-with-two-mints");
             }
             st.class("accepted-set");
         } else {
@@ -322,6 +345,9 @@ pub fn profile() -> Profile {
     p.max_steps = 10;
     p.lead_blocks = 6;
     p.heavy_bias = true;
+    // genuine proof-of-work mints, from a low recorded speed so that a mint raises it: several mints in one set
+    p.kind_w[7] = 7;
+    p.low_dosc_start = true;
     p
 }
 
@@ -352,7 +378,7 @@ pub fn run(ctx: &Ctx) -> (Outcome, String, Option<bool>) {
         let o = cross_process(ctx, 48);
         out.absorb(o);
     }
-    let rule = "For every batch of >=2 transactions met in generated histories (independent, chains, fan-in/fan-out, repeated, mutated; acceptable and unacceptable), from the state it was generated for: every permutation (all n! for n<=4, otherwise identity, reverse and 22 pseudo-random ones) x rayon pools of 1 and 4 threads; (accepted?, header of apply_tx_batch(perm).seal(with a fixed proposer action, so that the fee-pool / tips split is visible)) must be identical for all, and - when accepted - equal to applying the transactions one at a time in an order where parents precede children. Every sealed block with >=2 transactions is re-validated by its parent through apply_block under 8 differently built HashSets (fresh RandomState, rotated/reversed insertion) on alternating pool sizes and must give the same result. Before a batch is applied, variants of it with the same signature-free bodies but stripped / bit-flipped signatures are judged on a scratch copy; they are judged again after the properly signed batch has been validated and must get the same verdict (the outcome may not depend on what the process validated earlier). Thorough tier only: 48 generated histories are additionally executed in two fresh child processes each (own hash seeds, nothing validated before) and must give the same accept/reject sequence and header hashes as in the warmed-up parent process. Non-trivial = a set with a dependency for which a tested permutation puts a child before its parent; distinct by (pre-state coin root, set of transaction hashes).".to_string();
+    let rule = "For every batch of >=2 transactions met in generated histories (independent, chains, fan-in/fan-out, repeated, mutated; acceptable and unacceptable), from the state it was generated for: every permutation (all n! for n<=4, otherwise identity, reverse and 22 pseudo-random ones) x rayon pools of 1 and 4 threads; (accepted?, header of apply_tx_batch(perm).seal(with a fixed proposer action, so that the fee-pool / tips split is visible)) must be identical for all, and - when accepted - equal to applying the transactions one at a time in up to three different orders in which parents precede children (the set as presented, reversed, rotated). Sets include genuine proof-of-work mints (7%) from a low recorded DOSC speed. Every sealed block with >=2 transactions is re-validated by its parent through apply_block under 8 differently built HashSets (fresh RandomState, rotated/reversed insertion) on alternating pool sizes and must give the same result. Before a batch is applied, variants of it with the same signature-free bodies but stripped / bit-flipped signatures are judged on a scratch copy; they are judged again after the properly signed batch has been validated and must get the same verdict (the outcome may not depend on what the process validated earlier). Thorough tier only: 48 generated histories are additionally executed in two fresh child processes each (own hash seeds, nothing validated before) and must give the same accept/reject sequence and header hashes as in the warmed-up parent process. Non-trivial = a set with a dependency for which a tested permutation puts a child before its parent; distinct by (pre-state coin root, set of transaction hashes).".to_string();
     (out, rule, None)
 }
 
